@@ -301,6 +301,8 @@ def _features(c):
             f.add("observe_after_mutate")
         if act == "mutate_copy" and src == "to_likelihood":
             f.add("mutate_derived_likelihood")
+        if act == "copy_enable_fd" and src == "to_likelihood":
+            f.add("copy_of_likelihood")
         if act == "mutate_original" and any(a in ("cond_factor", "copy_enable_fd") and oo == o for a, oo, _ in c["hist"][:pos]):
             f.add("mutate_original_after_deriving")
         if act == "mutate_copy" and any(a == "to_likelihood" and oo == o for a, oo, _ in c["hist"][:pos]):
@@ -422,11 +424,17 @@ def replay_case(ctx, case, par, r, sweeps, seed):
                 elif act == "copy_enable_fd":
                     if hasattr(e["obj"], "enable_FD"):
                         cpy = e["obj"]()
-                        if cpy is e["obj"]:
-                            # conditioning on nothing handed back the object itself (e.g. an EvaluatedDensity, a constant):
-                            # no copy exists, so there is nothing to enable finite differences on without touching the original
+                        try:
+                            has_parameters = len(e["obj"].get_parameter_names()) > 0
+                        except Exception:
+                            has_parameters = True
+                        if cpy is e["obj"] and not has_parameters:
+                            # conditioning on nothing handed back the object itself - a constant without any parameter left
+                            # (EvaluatedDensity): no copy exists, there is nothing to enable finite differences on
                             ctx.facets["action/copy_is_self"] = ctx.facets.get("action/copy_is_self", 0) + 1
                             return      # the spec's new object does not exist: the behaviour cannot be continued
+                        # (an object WITH parameters that hands back itself is followed: switching finite differences on "the
+                        # copy" then shows in the original, which the frame condition reports)
                         cpy.enable_FD()
                         new = (cpy, e["kind"], e["fixed"], e["v"], {})
                     else:
@@ -641,7 +649,7 @@ def run(ctx):
     allcases = cases + simcases + cases4
     feats = {json.dumps(c, sort_keys=True): _features(c) for c in allcases}
     wanted = ["act:condition", "act:logd", "act:gradient", "act:run_sampler", "act:gibbs", "act:apply_model", "act:mutate_copy", "act:cond_factor", "act:to_likelihood",
-              "act:copy_enable_fd", "act:sample", "act:bad_call", "act:mutate_original", "mutate_derived_likelihood", "mutate_original_after_deriving", "mutate_underlying_of_likelihood", "switch_original_then_copy", "staged_condition", "staged_condition_n4", "gibbs_on_cond",
+              "act:copy_enable_fd", "act:sample", "act:bad_call", "act:mutate_original", "mutate_derived_likelihood", "mutate_original_after_deriving", "mutate_underlying_of_likelihood", "switch_original_then_copy", "copy_of_likelihood", "staged_condition", "staged_condition_n4", "gibbs_on_cond",
               "sampler_on_cond", "derive_from_cond", "observe_after_mutate", "two_stage_partial_n4"]
     for ft in wanted:
         have = sum(1 for c in plan if ft in feats[json.dumps(c, sort_keys=True)])
